@@ -12,7 +12,7 @@ VARIABLES stage, nm, g, k
 vars == <<stage, nm, g, k>>
 
 CostsQuick    == {-1, 0, 2}
-CostsThorough == {-2, 0, 1, 3, NoEdge}
+CostsThorough == {-2, 0, 1, NoEdge}
 Pairs == {p \in (1..Tokens) \X (1..Tokens) : p[1] < p[2]}
 MK    == [a : 1..Tokens, b : 1..Tokens, cab : Costs, cba : Costs]
 MKs   == {m \in MK : m.a < m.b}
